@@ -590,10 +590,6 @@ Proof.
   intros F E; inversion E; subst. inversion F; assumption.
 Qed.
 
-(* no request HEADERS on stream s carries a test name *)
-Definition no_name_on (s : N) (fs : list (bool * dframe)) : Prop :=
-  forall es fields, In (true, FHeaders s es fields) fs -> is_nil (test_name fields) = true.
-
 Lemma no_name_gen client s : forall fs st st' acts,
   no_name_on s fs -> nameless_at s st -> sm_run client st fs = Some (st', acts) ->
   completions_of s acts = [] /\ nameless_at s st'.
@@ -712,30 +708,41 @@ Proof.
       rewrite E2. eexists; eexists; split; [reflexivity|]. rewrite all_completions_app, A, A2. reflexivity.
 Qed.
 
+(* where a nameless stream still open has been left *)
+Definition nameless_left (sid : N) (o : outcome) (st : sm) (mx : N) : Prop :=
+  match o with
+  | Open _ => exists v', st = mkSM [(sid, v')] mx /\ nameless v' /\ ok_stream v'
+  | Done _ => True
+  end.
+
 Lemma steps_nameless_run client sid : forall x r o, steps sid x r o -> forall v mx, nameless v -> ok_stream v ->
-  exists st acts, sm_run client (mkSM [(sid, v)] mx) r = Some (st, acts) /\ all_completions acts = [].
+  exists st acts, sm_run client (mkSM [(sid, v)] mx) r = Some (st, acts) /\ all_completions acts = [] /\
+                  nameless_left sid o st mx.
 Proof.
-  assert (Stay : forall v mx isreq f r, nameless v -> ok_stream v -> fsid f = Some sid -> stays_frame isreq f ->
+  assert (Stay : forall o v mx isreq f r, nameless v -> ok_stream v -> fsid f = Some sid -> stays_frame isreq f ->
             (forall v' mx, nameless v' -> ok_stream v' ->
-               exists st acts, sm_run client (mkSM [(sid, v')] mx) r = Some (st, acts) /\ all_completions acts = []) ->
-            exists st acts, sm_run client (mkSM [(sid, v)] mx) ((isreq, f) :: r) = Some (st, acts) /\ all_completions acts = []).
-  { intros v mx isreq f r Nm Ok Ft St IH.
+               exists st acts, sm_run client (mkSM [(sid, v')] mx) r = Some (st, acts) /\ all_completions acts = [] /\
+                               nameless_left sid o st mx) ->
+            exists st acts, sm_run client (mkSM [(sid, v)] mx) ((isreq, f) :: r) = Some (st, acts) /\
+                            all_completions acts = [] /\ nameless_left sid o st mx).
+  { intros o v mx isreq f r Nm Ok Ft St IH.
     destruct (single_nameless_step client sid v mx isreq f Nm Ok Ft) as (u & acts & L & E & A & K).
     destruct (sm_local_stays _ _ _ _ _ _ L St) as [v' ->]. destruct (K v' eq_refl) as [Nm' Ok'].
-    destruct (IH v' mx Nm' Ok') as (st & a2 & E2 & A2).
+    destruct (IH v' mx Nm' Ok') as (st & a2 & E2 & A2 & NL).
     cbn [sm_run]. rewrite E. cbn [tbl]. rewrite E2. eexists; eexists; split; [reflexivity|].
-    rewrite all_completions_app, A, A2. reflexivity. }
-  assert (Fin : forall v mx isreq f r, nameless v -> ok_stream v -> fsid f = Some sid -> Forall (late sid) r ->
-            exists st acts, sm_run client (mkSM [(sid, v)] mx) ((isreq, f) :: r) = Some (st, acts) /\ all_completions acts = []).
-  { intros v mx isreq f r Nm Ok Ft La.
+    split; [|exact NL]. rewrite all_completions_app, A, A2. reflexivity. }
+  assert (Fin : forall t v mx isreq f r, nameless v -> ok_stream v -> fsid f = Some sid -> Forall (late sid) r ->
+            exists st acts, sm_run client (mkSM [(sid, v)] mx) ((isreq, f) :: r) = Some (st, acts) /\
+                            all_completions acts = [] /\ nameless_left sid (Done t) st mx).
+  { intros t v mx isreq f r Nm Ok Ft La.
     destruct (single_nameless_step client sid v mx isreq f Nm Ok Ft) as (u & acts & L & E & A & K).
     destruct (late_nameless client sid mx r La (tbl sid v u)) as (st & a2 & E2 & A2).
     { destruct u as [|v'|]; simpl; [right; eauto|right; exists v'; destruct (K v' eq_refl); auto|left; reflexivity]. }
-    cbn [sm_run]. rewrite E, E2. eexists; eexists; split; [reflexivity|].
+    cbn [sm_run]. rewrite E, E2. eexists; eexists; split; [reflexivity|]. split; [|exact Logic.I].
     rewrite all_completions_app, A, A2. reflexivity. }
   induction 1 as [x|x data r o Q _ IH|x data r o Q _ IH|x fs r o Q _ IH|x fs r o P _ IH|x fs r P La
                   |x data r o P _ IH|x data r P La|x fs r P La|x code r La|x code r La]; intros v mx Nm Ok.
-  - eexists; eexists; split; reflexivity.
+  - eexists; eexists; split; [reflexivity|]. split; [reflexivity|]. exists v. auto.
   - apply Stay; auto. simpl; auto.
   - apply Stay; auto. simpl; auto.
   - apply Stay; auto. simpl; auto.
@@ -749,22 +756,23 @@ Proof.
 Qed.
 
 Lemma exchange_nameless_run client sid frames o : exchange sid frames o -> is_nil (first_name frames) = true ->
-  exists st acts, sm_run client sm_init frames = Some (st, acts) /\ all_completions acts = [].
+  exists st acts, sm_run client sm_init frames = Some (st, acts) /\ all_completions acts = [] /\
+                  nameless_left sid o st 0.
 Proof.
   intros X Nm. destruct X as [fs r o S|fs r o S]; cbn [first_name] in Nm.
-  - destruct (steps_nameless_run client sid _ _ _ S (new_stream fs) 0) as (st & acts & E & A);
+  - destruct (steps_nameless_run client sid _ _ _ S (new_stream fs) 0) as (st & acts & E & A & NL);
       [exact Nm|apply new_stream_ok|].
     cbn [sm_run]. unfold sm_frame. cbn [fsid sm_init m_streams m_max m_get sm_local negb N.eqb andb app apply_upd].
     change (m_set sid (new_stream fs) []) with [(sid, new_stream fs)].
-    rewrite E. eexists; eexists; split; [reflexivity|exact A].
+    rewrite E. eexists; eexists; split; [reflexivity|]. split; [exact A|exact NL].
   - destruct (close_stream_ok sid (new_stream fs) true ENil (new_stream_ok fs)) as (r0 & a0 & C & K).
     destruct (close_stream_nameless _ _ _ _ _ _ (Nm : nameless (new_stream fs)) C) as [-> Kn].
     destruct (close_req_keeps _ _ _ _ C) as [v' ->].
-    destruct (steps_nameless_run client sid _ _ _ S v' 0) as (st & acts & E & A); [apply Kn; reflexivity|apply K; reflexivity|].
+    destruct (steps_nameless_run client sid _ _ _ S v' 0) as (st & acts & E & A & NL); [apply Kn; reflexivity|apply K; reflexivity|].
     cbn [sm_run]. unfold sm_frame. cbn [fsid sm_init m_streams m_max m_get sm_local negb N.eqb andb app apply_upd].
     rewrite C. cbn [close_upd apply_upd app].
     change (m_set sid v' []) with [(sid, v')].
-    rewrite E. eexists; eexists; split; [reflexivity|exact A].
+    rewrite E. eexists; eexists; split; [reflexivity|]. split; [exact A|exact NL].
 Qed.
 
 (* ---------------------------------------------------------------------------------------- *)
@@ -790,7 +798,7 @@ Proof.
 Qed.
 
 Lemma exchange_name sid frames o : exchange sid frames o ->
-  match o with Done t => t_name t = first_name frames | Open _ => True end.
+  match o with Done t => t_name t = first_name frames | Open x' => t_name (x_tr x') = first_name frames end.
 Proof.
   intros X. destruct X as [fs r o S|fs r o S]; apply steps_name in S; destruct o; auto; cbn [first_name].
 Qed.
@@ -806,7 +814,7 @@ Lemma single_stream_trace_content_proof : forall client sid frames o,
 Proof.
   intros client sid frames o X. pose proof (exchange_name sid frames o X) as Hn.
   destruct (is_nil (first_name frames)) eqn:Nm.
-  - destruct (exchange_nameless_run client sid frames o X Nm) as (st & acts & E & A).
+  - destruct (exchange_nameless_run client sid frames o X Nm) as (st & acts & E & A & _).
     exists st, acts. split; [exact E|].
     assert (T : traces_of o = []) by (destruct o; cbn; [rewrite Hn, Nm|]; reflexivity).
     rewrite T. split; [exact A|]. split; [apply all_completions_none; exact A|].
@@ -818,4 +826,406 @@ Proof.
     split; [cbn; symmetry; exact T|]. split.
     + rewrite T. destruct o; cbn; rewrite ?N.eqb_refl; reflexivity.
     + intros t -> _. reflexivity.
+Qed.
+
+(* ---------------------------------------------------------------------------------------- *)
+(* all interleavings of any number of well-formed streams                                   *)
+(* ---------------------------------------------------------------------------------------- *)
+Lemma concerns_own s : forall fs, Forall (fun f => is_goaway (snd f) = false) fs ->
+  filter (concerns s) fs = filter (own s) fs.
+Proof.
+  induction 1 as [|[isreq f] r Hf _ IH]; [reflexivity|]. simpl. rewrite IH.
+  unfold concerns, own. destruct f; simpl in *; try reflexivity. discriminate.
+Qed.
+
+Definition tags_in (l : list N) (acts : list cact) : Prop :=
+  Forall (fun a => match a with CComplete s' _ => In s' l | _ => True end) acts.
+
+Lemma tagged_tags_in t l acts : tagged t acts -> In t l -> tags_in l acts.
+Proof.
+  intros T I. unfold tags_in, tagged in *. eapply Forall_impl; [|exact T].
+  intros a. destruct a; auto. intros ->. exact I.
+Qed.
+
+Lemma run_tags client l : forall fs st st' acts,
+  Forall (fun f => is_goaway (snd f) = false /\ forall t, fsid (snd f) = Some t -> In t l) fs ->
+  sm_run client st fs = Some (st', acts) -> tags_in l acts.
+Proof.
+  induction fs as [|[isreq f] r IH]; intros st st' acts F; simpl.
+  - intros E; inversion E; constructor.
+  - inversion F as [|? ? [Hg Hf] Fr]; subst. simpl in Hg, Hf.
+    destruct (sm_frame client st isreq f) as [[m1 b1]|] eqn:F1; [|discriminate].
+    destruct (sm_run client m1 r) as [[m1' c1]|] eqn:R1; [|discriminate].
+    intros E; inversion E; subst. apply Forall_app. split; [|eapply IH; eauto].
+    destruct (fsid f) as [t|] eqn:Ft.
+    + assert (X : match sm_local (m_get t (m_streams st)) (m_max st) isreq f with
+                  | None => None
+                  | Some (u, acts) => Some (mkSM (apply_upd t u (m_streams st)) (m_max st), acts)
+                  end = Some (m1, b1)).
+      { destruct f; simpl in Ft; inversion Ft; subst; exact F1. }
+      destruct (sm_local _ _ _ _) as [[u a]|] eqn:L; [|discriminate]. inversion X; subst.
+      eapply tagged_tags_in; [eapply sm_local_tagged; eauto|apply Hf; reflexivity].
+    + destruct f; simpl in Ft, Hg; try discriminate. simpl in F1. inversion F1; constructor.
+Qed.
+
+Lemma flat_map_not_in {A} (g : N -> list A) s' t : forall l, ~ In s' l ->
+  flat_map (fun s => (if s' =? s then [t] else []) ++ g s) l = flat_map g l.
+Proof.
+  induction l as [|s0 l IH]; intros Ni; [reflexivity|]. simpl.
+  destruct (N.eqb_spec s' s0) as [->|Ne]; [exfalso; apply Ni; left; reflexivity|].
+  rewrite IH; [reflexivity|]. intros I; apply Ni; right; exact I.
+Qed.
+
+Lemma flat_map_insert {A} (g : N -> list A) s' t : forall l, NoDup l -> In s' l ->
+  Permutation (flat_map (fun s => (if s' =? s then [t] else []) ++ g s) l) (t :: flat_map g l).
+Proof.
+  induction l as [|s0 l IH]; intros ND I; [destruct I|]. inversion ND as [|? ? Ni ND']; subst. simpl.
+  destruct (N.eqb_spec s' s0) as [->|Ne].
+  - rewrite (flat_map_not_in g s0 t l Ni). simpl. apply Permutation_refl.
+  - destruct I as [I|I]; [congruence|]. simpl.
+    eapply Permutation_trans; [apply Permutation_app_head, (IH ND' I)|].
+    apply Permutation_sym, Permutation_middle.
+Qed.
+
+Lemma completions_partition l : NoDup l -> forall acts, tags_in l acts ->
+  Permutation (all_completions acts) (flat_map (fun s => completions_of s acts) l).
+Proof.
+  intros ND. induction acts as [|a r IH]; intros T.
+  - simpl. replace (flat_map (fun _ : N => @nil btrace) l) with (@nil btrace); [constructor|].
+    clear. induction l; simpl; auto.
+  - inversion T as [|? ? Ta Tr]; subst. specialize (IH Tr).
+    destruct a as [n|s' t|n|]; try exact IH.
+    simpl. eapply Permutation_trans; [apply perm_skip, IH|].
+    apply Permutation_sym.
+    apply (flat_map_insert (fun s => completions_of s r) s' t l ND Ta).
+Qed.
+
+Lemma sm_run_det client st fs r1 r2 : sm_run client st fs = Some r1 -> sm_run client st fs = Some r2 -> r1 = r2.
+Proof. congruence. Qed.
+
+(* any interleaving of any number of well-formed streams with distinct ids: every stream hands over exactly
+   its expected traces, and all traces completed on the connection are, as a multiset, the expected ones *)
+Lemma wellformed_interleaving_traces_proof : forall client xs fs,
+  interleaving_of xs fs ->
+  exists st acts, sm_run client sm_init fs = Some (st, acts) /\
+    (forall e, In e xs -> completions_of (xc_sid e) acts = traces_of (xc_out e)) /\
+    Permutation (all_completions acts) (flat_map (fun e => traces_of (xc_out e)) xs).
+Proof.
+  intros client xs fs (ND & FX & FF).
+  destruct (sm_run_ok client fs sm_init) as (st & acts & E & _); [constructor|].
+  exists st, acts. split; [exact E|].
+  assert (NG : Forall (fun f => is_goaway (snd f) = false) fs).
+  { eapply Forall_impl; [|exact FF]. intros f [H _]; exact H. }
+  assert (Each : forall e, In e xs -> completions_of (xc_sid e) acts = traces_of (xc_out e)).
+  { intros e I. rewrite Forall_forall in FX. destruct (FX e I) as [X Pr].
+    destruct (stream_independent_proof client fs (xc_sid e)) as (st1 & a1 & st2 & a2 & E1 & E2 & C & _).
+    rewrite (concerns_own _ _ NG), Pr in E2.
+    destruct (single_stream_trace_content_proof client _ _ _ X) as (st3 & a3 & E3 & _ & C3 & _).
+    rewrite E in E1. inversion E1; subst. rewrite E2 in E3. inversion E3; subst. congruence. }
+  split; [exact Each|].
+  eapply Permutation_trans; [apply (completions_partition _ ND acts (run_tags client _ fs _ _ _ FF E))|].
+  clear - Each. induction xs as [|e r IH]; [constructor|]. simpl.
+  rewrite (Each e (or_introl eq_refl)). apply Permutation_app_head. apply IH.
+  intros e' I. apply Each. right; exact I.
+Qed.
+
+(* ---------------------------------------------------------------------------------------- *)
+(* GOAWAY                                                                                   *)
+(* ---------------------------------------------------------------------------------------- *)
+Definition same_view_g (s : N) (st1 st2 : sm) : Prop :=
+  sview s (m_streams st1) = sview s (m_streams st2) /\ cut_off (m_max st1) s = cut_off (m_max st2) s.
+
+Lemma sm_local_gate g mx1 mx2 isreq f s : fsid f = Some s -> cut_off mx1 s = cut_off mx2 s ->
+  sm_local g mx1 isreq f = sm_local g mx2 isreq f.
+Proof.
+  intros Ft H. destruct f; simpl in Ft; inversion Ft; subst; try reflexivity.
+  unfold cut_off in H. simpl. rewrite H. reflexivity.
+Qed.
+
+Lemma sm_frame_local client st isreq f s st' acts : fsid f = Some s ->
+  sm_frame client st isreq f = Some (st', acts) ->
+  exists u, sm_local (m_get s (m_streams st)) (m_max st) isreq f = Some (u, acts) /\
+            st' = mkSM (apply_upd s u (m_streams st)) (m_max st).
+Proof.
+  intros Ft E.
+  assert (X : match sm_local (m_get s (m_streams st)) (m_max st) isreq f with
+              | None => None
+              | Some (u, acts) => Some (mkSM (apply_upd s u (m_streams st)) (m_max st), acts)
+              end = Some (st', acts)).
+  { destruct f; simpl in Ft; inversion Ft; subst; exact E. }
+  destruct (sm_local _ _ _ _) as [[u a]|]; [|discriminate]. inversion X; subst. eauto.
+Qed.
+
+Lemma sm_frame_goaway_view client st isreq last code st' acts s :
+  sm_frame client st isreq (FGoAway last code) = Some (st', acts) ->
+  sview s (m_streams st') = (if last <? s then [] else sview s (m_streams st)) /\ m_max st' = last /\
+  completions_of s acts =
+  (if last <? s
+   then flat_map (fun e => match abandon_resp (fst e) (snd e) (EConn code) with Some x => completions_of s x | None => [] end)
+                 (sview s (m_streams st))
+   else []).
+Proof.
+  simpl. destruct (abandon_all _ _) as [a|] eqn:A; [|discriminate]. intros E; inversion E; subst. cbn [m_streams m_max].
+  split; [apply sview_filter_le|]. split; [reflexivity|].
+  rewrite (abandon_all_view _ s (abandon_resp_tagged (EConn code)) _ _ A), sview_filter_gt.
+  destruct (last <? s); reflexivity.
+Qed.
+
+Lemma sim_gate client s : forall fs st1 st2 st1' a1 st2' a2,
+  same_view_g s st1 st2 ->
+  sm_run client st1 fs = Some (st1', a1) -> sm_run client st2 fs = Some (st2', a2) ->
+  same_view_g s st1' st2' /\ completions_of s a1 = completions_of s a2.
+Proof.
+  induction fs as [|[isreq f] r IH]; intros st1 st2 st1' a1 st2' a2 V; simpl.
+  - intros E1 E2; inversion E1; inversion E2; subst. auto.
+  - destruct (sm_frame client st1 isreq f) as [[m1 b1]|] eqn:F1; [|discriminate].
+    destruct (sm_run client m1 r) as [[m1' c1]|] eqn:R1; [|discriminate].
+    destruct (sm_frame client st2 isreq f) as [[m2 b2]|] eqn:F2; [|discriminate].
+    destruct (sm_run client m2 r) as [[m2' c2]|] eqn:R2; [|discriminate].
+    intros E1 E2; inversion E1; inversion E2; subst.
+    assert (S : same_view_g s m1 m2 /\ completions_of s b1 = completions_of s b2).
+    { destruct V as [V G].
+      destruct (concerns_cases s isreq f) as [[_ [Ft|(last & code & Ef)]]|[_ [(t & Ft & Ne)|Ef]]]; try subst f.
+      - destruct (sm_frame_local _ _ _ _ _ _ _ Ft F1) as (u1 & L1 & ->).
+        destruct (sm_frame_local _ _ _ _ _ _ _ Ft F2) as (u2 & L2 & ->).
+        rewrite (m_get_sview s (m_streams st1)), V, <- (m_get_sview s (m_streams st2)) in L1.
+        rewrite (sm_local_gate _ _ _ _ _ _ Ft G), L2 in L1. inversion L1; subst.
+        split; [|reflexivity]. split; cbn [m_streams m_max]; [|exact G].
+        rewrite !sview_apply_same. destruct u1; auto.
+      - destruct (sm_frame_goaway_view _ _ _ _ _ _ _ s F1) as (V1 & M1 & C1).
+        destruct (sm_frame_goaway_view _ _ _ _ _ _ _ s F2) as (V2 & M2 & C2).
+        split; [split; [rewrite V1, V2, V; reflexivity|rewrite M1, M2; reflexivity]|].
+        rewrite C1, C2, V. reflexivity.
+      - destruct (sm_frame_other _ _ _ _ _ _ s t F1 Ft Ne) as [[V1 M1] C1].
+        destruct (sm_frame_other _ _ _ _ _ _ s t F2 Ft Ne) as [[V2 M2] C2].
+        split; [split; [rewrite V1, V2; exact V|rewrite M1, M2; exact G]|congruence].
+      - simpl in F1, F2. inversion F1; inversion F2; subst. split; [split; assumption|reflexivity]. }
+    destruct S as [V' Cb]. destruct (IH _ _ _ _ _ _ V' R1 R2) as [V'' Cc].
+    split; [exact V''|]. rewrite !completions_app. congruence.
+Qed.
+
+(* from ANY reachable state (any streams open, in any phase): a GOAWAY leaves every stream at or below its
+   last-stream-id exactly as it would be without it, now and for everything that follows
+   (hypothesis: s has not been cut off already by an earlier GOAWAY, which a later one would otherwise lift) *)
+Lemma goaway_keeps_lower_from_proof : forall client st d last code post s,
+  sm_ok st -> s <= last -> cut_off (m_max st) s = false ->
+  exists st1 a1 st2 a2,
+    sm_run client st ((d, FGoAway last code) :: post) = Some (st1, a1) /\
+    sm_run client st post = Some (st2, a2) /\
+    completions_of s a1 = completions_of s a2 /\
+    m_get s (m_streams st1) = m_get s (m_streams st2).
+Proof.
+  intros client st d last code post s Ok Le Cut.
+  destruct (sm_run_ok client ((d, FGoAway last code) :: post) st Ok) as (st1 & a1 & E1 & _).
+  destruct (sm_run_ok client post st Ok) as (st2 & a2 & E2 & _).
+  exists st1, a1, st2, a2. split; [exact E1|]. split; [exact E2|].
+  cbn [sm_run] in E1.
+  destruct (sm_frame client st d (FGoAway last code)) as [[m1 b1]|] eqn:F1; [|discriminate].
+  destruct (sm_run client m1 post) as [[m1' c1]|] eqn:R1; [|discriminate]. inversion E1; subst.
+  destruct (sm_frame_goaway_view _ _ _ _ _ _ _ s F1) as (V1 & M1 & C1).
+  assert (Lt : last <? s = false) by (apply N.ltb_ge; exact Le).
+  rewrite Lt in V1, C1.
+  assert (V : same_view_g s m1 st).
+  { split; [exact V1|]. rewrite M1, Cut. unfold cut_off. rewrite Lt. apply andb_false_r. }
+  destruct (sim_gate client s post _ _ _ _ _ _ V R1 E2) as [[V' _] C].
+  split; [rewrite completions_app, C1; exact C|]. rewrite !m_get_sview, V'. reflexivity.
+Qed.
+
+Lemma sm_run_app client : forall a b st,
+  sm_run client st (a ++ b) =
+  match sm_run client st a with
+  | Some (st1, a1) => match sm_run client st1 b with Some (st2, a2) => Some (st2, a1 ++ a2) | None => None end
+  | None => None
+  end.
+Proof.
+  induction a as [|[isreq f] a IH]; intros b st; simpl.
+  - destruct (sm_run client st b) as [[st2 a2]|]; reflexivity.
+  - destruct (sm_frame client st isreq f) as [[m1 b1]|]; [|reflexivity].
+    rewrite IH. destruct (sm_run client m1 a) as [[m2 b2]|]; [|reflexivity].
+    destruct (sm_run client m2 b) as [[m3 b3]|]; [|reflexivity]. rewrite app_assoc. reflexivity.
+Qed.
+
+Lemma sm_frame_max client st isreq f st' acts : sm_frame client st isreq f = Some (st', acts) ->
+  m_max st' = match f with FGoAway l _ => l | _ => m_max st end.
+Proof.
+  destruct f as [sid es fs|sid es data|sid code|last code|]; unfold sm_frame; cbn [fsid].
+  1-3: destruct (sm_local _ _ _ _) as [[u a]|]; [|discriminate]; intros E; inversion E; reflexivity.
+  - destruct (abandon_all _ _); [|discriminate]. intros E; inversion E; reflexivity.
+  - intros E; inversion E; reflexivity.
+Qed.
+
+Lemma spares_run client s : forall pre st st' acts,
+  Forall (spares s) pre -> cut_off (m_max st) s = false -> sm_run client st pre = Some (st', acts) ->
+  cut_off (m_max st') s = false.
+Proof.
+  induction pre as [|[isreq f] r IH]; intros st st' acts F Cut; simpl.
+  - intros E; inversion E; subst; exact Cut.
+  - inversion F as [|? ? Sp Fr]; subst.
+    destruct (sm_frame client st isreq f) as [[m1 b1]|] eqn:F1; [|discriminate].
+    destruct (sm_run client m1 r) as [[m1' c1]|] eqn:R1; [|discriminate].
+    intros E; inversion E; subst. apply (IH m1 st' c1 Fr); [|exact R1].
+    rewrite (sm_frame_max _ _ _ _ _ _ F1). destruct f; try exact Cut.
+    unfold spares in Sp. simpl in Sp. unfold cut_off.
+    replace (last <? s) with false by (symmetry; apply N.ltb_ge; exact Sp). apply andb_false_r.
+Qed.
+
+(* the same on a whole connection: whatever came before (as long as no earlier GOAWAY had cut s off) *)
+Lemma goaway_keeps_lower_proof : forall client pre d last code post s,
+  s <= last -> Forall (spares s) pre ->
+  exists st1 a1 st2 a2,
+    sm_run client sm_init (pre ++ (d, FGoAway last code) :: post) = Some (st1, a1) /\
+    sm_run client sm_init (pre ++ post) = Some (st2, a2) /\
+    completions_of s a1 = completions_of s a2 /\
+    m_get s (m_streams st1) = m_get s (m_streams st2).
+Proof.
+  intros client pre d last code post s Le Sp.
+  destruct (sm_run_ok client pre sm_init) as (st0 & a0 & E0 & Ok0); [constructor|].
+  assert (Cut : cut_off (m_max st0) s = false) by exact (spares_run client s pre sm_init st0 a0 Sp eq_refl E0).
+  destruct (goaway_keeps_lower_from_proof client st0 d last code post s Ok0 Le Cut) as (st1 & a1 & st2 & a2 & E1 & E2 & C & G).
+  exists st1, (a0 ++ a1), st2, (a0 ++ a2).
+  rewrite !sm_run_app, E0, E1, E2. repeat split; [|exact G]. rewrite !completions_app, C. reflexivity.
+Qed.
+
+(* ---- streams above the last-stream-id ---- *)
+Definition dead (s : N) (st : sm) : Prop := sview s (m_streams st) = [] /\ cut_off (m_max st) s = true.
+
+Lemma sm_local_dead mx isreq f s : cut_off mx s = true -> fsid f = Some s ->
+  sm_local None mx isreq f = Some (UKeep, []).
+Proof.
+  intros C Ft. destruct f; simpl in Ft; inversion Ft; subst; try reflexivity.
+  simpl. destruct isreq; [|reflexivity]. unfold cut_off in C. cbn [negb]. rewrite C. reflexivity.
+Qed.
+
+Lemma dead_run client s : forall post st st' acts,
+  dead s st -> Forall (fun f => is_goaway (snd f) = false) post ->
+  sm_run client st post = Some (st', acts) -> completions_of s acts = [] /\ dead s st'.
+Proof.
+  induction post as [|[isreq f] r IH]; intros st st' acts D F; simpl.
+  - intros E; inversion E; subst. auto.
+  - inversion F as [|? ? Hg Fr]; subst. simpl in Hg.
+    destruct (sm_frame client st isreq f) as [[m1 b1]|] eqn:F1; [|discriminate].
+    destruct (sm_run client m1 r) as [[m1' c1]|] eqn:R1; [|discriminate].
+    intros E; inversion E; subst.
+    assert (S : completions_of s b1 = [] /\ dead s m1).
+    { destruct D as [V C].
+      destruct (concerns_cases s isreq f) as [[_ [Ft|(last & code & Ef)]]|[_ [(t & Ft & Ne)|Ef]]]; try subst f.
+      - destruct (sm_frame_local _ _ _ _ _ _ _ Ft F1) as (u1 & L1 & ->).
+        rewrite m_get_sview, V, (sm_local_dead _ _ _ _ C Ft) in L1. inversion L1; subst.
+        split; [reflexivity|]. split; [exact V|exact C].
+      - discriminate.
+      - destruct (sm_frame_other _ _ _ _ _ _ s t F1 Ft Ne) as [[V1 M1] C1].
+        split; [exact C1|]. split; [rewrite V1; exact V|rewrite M1; exact C].
+      - simpl in F1. inversion F1; subst. split; [reflexivity|]. split; assumption. }
+    destruct S as [C1 D1]. destruct (IH _ _ _ D1 Fr R1) as [C2 D2].
+    split; [rewrite completions_app, C1, C2; reflexivity|exact D2].
+Qed.
+
+(* from ANY reachable state: a GOAWAY with a lower (non-zero) last-stream-id abandons stream s exactly as
+   setMaxStreamIDLocked does (abandon_resp: both tracers flushed, ResponseBodyEnd with the connection error),
+   removes it, and nothing that follows (no further GOAWAY) on any stream makes s complete or reappear *)
+Lemma goaway_cancels_higher_from_proof : forall client st d last code post s,
+  sm_ok st -> last < s -> last <> 0 -> Forall (fun f => is_goaway (snd f) = false) post ->
+  exists st1 a1,
+    sm_run client st ((d, FGoAway last code) :: post) = Some (st1, a1) /\
+    completions_of s a1 =
+      flat_map (fun e => match abandon_resp (fst e) (snd e) (EConn code) with Some x => completions_of s x | None => [] end)
+               (sview s (m_streams st)) /\
+    m_get s (m_streams st1) = None.
+Proof.
+  intros client st d last code post s Ok Lt Nz NG.
+  destruct (sm_run_ok client ((d, FGoAway last code) :: post) st Ok) as (st1 & a1 & E1 & _).
+  exists st1, a1. split; [exact E1|].
+  cbn [sm_run] in E1.
+  destruct (sm_frame client st d (FGoAway last code)) as [[m1 b1]|] eqn:F1; [|discriminate].
+  destruct (sm_run client m1 post) as [[m1' c1]|] eqn:R1; [|discriminate]. inversion E1; subst.
+  destruct (sm_frame_goaway_view _ _ _ _ _ _ _ s F1) as (V1 & M1 & C1).
+  assert (Ltb : last <? s = true) by (apply N.ltb_lt; exact Lt).
+  rewrite Ltb in V1, C1.
+  assert (D : dead s m1).
+  { split; [exact V1|]. rewrite M1. unfold cut_off. rewrite Ltb.
+    destruct (N.eqb_spec last 0); [contradiction|reflexivity]. }
+  destruct (dead_run client s post _ _ _ D NG R1) as [C2 [V2 _]].
+  split; [rewrite completions_app, C1, C2, app_nil_r; reflexivity|]. rewrite m_get_sview, V2. reflexivity.
+Qed.
+
+Lemma abandon_resp_spec sid x e : x_wf x ->
+  abandon_resp sid (stream_of x) e = Some [CComplete sid (x_resp_end x e)].
+Proof.
+  intros W. pose proof W as (Nm & Er & Hq & Hp).
+  destruct (dt_flush_data _ Hq) as (Fl & Fd & Hq' & _).
+  destruct (x_flush_req_fields x) as (E1 & E2 & E3 & E4 & E5 & E6 & E7).
+  unfold abandon_resp, x_resp_end. cbn [stream_of s_req s_b s_got s_resp]. rewrite Fl.
+  destruct (x_popen x) eqn:Po.
+  - destruct Hp as [Hp Hr]. rewrite Hp.
+    destruct (dt_flush_data _ Hp) as (Fl2 & Fd2 & _). rewrite Fl2.
+    fold (bld x). rewrite b_adds_app, (bld_msgs x _ Nm Fd), <- bld_flush_req.
+    rewrite <- E2 in Fd2 |- *.
+    rewrite b_adds_app, (bld_msgs (x_flush_req x) _ (eq_trans (f_equal is_nil E5) Nm) Fd2), <- bld_flush_resp.
+    destruct (x_flush_resp_fields (x_flush_req x)) as (G1 & G2 & G3 & G4 & G5 & G6 & G7).
+    unfold bld. cbn [b_adds]. rewrite b_add_resp_end by congruence.
+    reflexivity.
+  - rewrite Hp. cbn [d_hasb dt_zero app].
+    fold (bld x). rewrite b_adds_app, (bld_msgs x _ Nm Fd), <- bld_flush_req.
+    unfold bld. cbn [b_adds]. rewrite b_add_resp_end by congruence.
+    reflexivity.
+Qed.
+
+Lemma own_no_goaway sid : forall post, Forall (fun f => own sid f = true) post ->
+  Forall (fun f => is_goaway (snd f) = false) post.
+Proof.
+  intros post F. eapply Forall_impl; [|exact F]. intros [isreq f]. unfold own. destruct f; simpl; auto.
+Qed.
+
+(* a well-formed stream still open (in whatever phase) when a GOAWAY with a lower non-zero last-stream-id
+   arrives: exactly one trace if it carries a test name, what was gathered so far, ended by the connection
+   error; whatever the stream's peers still send on it afterwards is ignored *)
+Lemma goaway_cancels_higher_proof : forall client sid frames x d last code post,
+  exchange sid frames (Open x) -> last < sid -> last <> 0 -> Forall (fun f => own sid f = true) post ->
+  exists st acts,
+    sm_run client sm_init (frames ++ (d, FGoAway last code) :: post) = Some (st, acts) /\
+    completions_of sid acts = x_abandoned x (EConn code) /\
+    m_get sid (m_streams st) = None.
+Proof.
+  intros client sid frames x d last code post X Lt Nz Ow.
+  pose proof (exchange_name sid frames _ X) as Hn. cbn in Hn.
+  pose proof (own_no_goaway sid post Ow) as NG.
+  destruct (is_nil (first_name frames)) eqn:Nm.
+  - destruct (exchange_nameless_run client sid frames _ X Nm) as (st0 & a0 & E0 & A0 & (v' & -> & Nv & Okv)).
+    destruct (goaway_cancels_higher_from_proof client (mkSM [(sid, v')] 0) d last code post sid) as (st1 & a1 & E1 & C1 & G1);
+      try assumption.
+    { constructor; [exact Okv|constructor]. }
+    exists st1, (a0 ++ a1). rewrite sm_run_app, E0, E1. split; [reflexivity|]. split; [|exact G1].
+    rewrite completions_app, (all_completions_none sid a0 A0), C1. cbn [m_streams sview filter fst]. rewrite N.eqb_refl.
+    cbn [flat_map fst snd]. unfold x_abandoned. rewrite Hn, Nm.
+    destruct (abandon_resp sid v' (EConn code)) as [xx|] eqn:Ab; [|reflexivity].
+    rewrite (abandon_resp_nameless _ _ _ _ Nv Ab). reflexivity.
+  - destruct (exchange_named_run client sid frames _ X Nm) as [E0 W].
+    cbn [table_of acts_of] in E0.
+    destruct (goaway_cancels_higher_from_proof client (mkSM [(sid, stream_of x)] 0) d last code post sid) as (st1 & a1 & E1 & C1 & G1);
+      try assumption.
+    { constructor; [|constructor]. destruct W as (_ & _ & Hq & _). split; [exact Hq|reflexivity]. }
+    eexists; eexists. rewrite sm_run_app, E0, E1. split; [reflexivity|]. split; [|exact G1].
+    change (CNew (first_name frames) :: [] ++ a1) with ([CNew (first_name frames)] ++ a1).
+    rewrite completions_app, C1. cbn [m_streams sview filter fst]. rewrite N.eqb_refl.
+    cbn [flat_map fst snd]. rewrite (abandon_resp_spec sid x (EConn code) W).
+    unfold x_abandoned. rewrite Hn, Nm. cbn. rewrite N.eqb_refl. reflexivity.
+Qed.
+
+(* the same on a whole connection, whatever came before *)
+Lemma goaway_cancels_higher_any_proof : forall client pre d last code post s,
+  last < s -> last <> 0 -> Forall (fun f => is_goaway (snd f) = false) post ->
+  exists st0 a0 st1 a1,
+    sm_run client sm_init pre = Some (st0, a0) /\
+    sm_run client sm_init (pre ++ (d, FGoAway last code) :: post) = Some (st1, a1) /\
+    completions_of s a1 =
+      completions_of s a0 ++
+      flat_map (fun e => match abandon_resp (fst e) (snd e) (EConn code) with Some x => completions_of s x | None => [] end)
+               (filter (fun e => fst e =? s) (m_streams st0)) /\
+    m_get s (m_streams st1) = None.
+Proof.
+  intros client pre d last code post s Lt Nz NG.
+  destruct (sm_run_ok client pre sm_init) as (st0 & a0 & E0 & Ok0); [constructor|].
+  destruct (goaway_cancels_higher_from_proof client st0 d last code post s Ok0 Lt Nz NG) as (st1 & a1 & E1 & C1 & G1).
+  exists st0, a0, st1, (a0 ++ a1). split; [exact E0|]. rewrite sm_run_app, E0, E1. split; [reflexivity|].
+  split; [|exact G1]. rewrite completions_app, C1. reflexivity.
 Qed.
